@@ -54,7 +54,8 @@ THEOREM = {
     "bad-release": "Asynkit.C13.refused_release_changes_nothing",
 }
 NONTRIVIAL = {"fault-while-waiting", "fault-woken-not-run", "fault-while-holding", "throw-refused",
-              "handover-by-giveup", "handover-contended", "release-by-non-holder-while-held"}
+              "handover-by-giveup", "handover-contended", "release-by-non-holder-while-held",
+              "ready-entry-made-positional-woken-lock-waiter"}
 
 
 def exhaustive(maxn):
@@ -85,7 +86,11 @@ def run(ctx):
     rng = ctx.rng
     S.explore(ctx, S.corpus_cases(PROP), KINDS, THEOREM, label="corpus: ", nontrivial=NONTRIVIAL)
     n = 30000 if ctx.thorough() else 3000
-    cases = [S.gen_case(rng, "C13") if rng.random() < 0.6 else S.gen_inflight_case(rng) for _ in range(n)]
+    def one():
+        g = rng.random()
+        return S.gen_case(rng, "C13") if g < 0.57 else (S.gen_inflight_case(rng) if g < 0.95
+                                                         else S.gen_positional_case(rng))
+    cases = [one() for _ in range(n)]
     runs = S.explore(ctx, cases, KINDS, THEOREM, nontrivial=NONTRIVIAL)
     for c in cases[:2]:
         ctx.sample(c)
